@@ -56,6 +56,9 @@ var BaseStrategies = []*StratEntity{
 			return st.NewAlligatorStrategy()
 		}
 		d := desc(c)
+		if (c[0]+c[1]+c[2])%3 == 0 {
+			d = c // the constructor takes any three periods: the jaw need not be the slowest line
+		}
 		return st.NewAlligatorStrategyWith(d[0], d[1], d[2])
 	}},
 	{Name: "trend.Apo", NCfg: 2, Make: withField(func() strategy.Strategy { return st.NewApoStrategy() }, "Apo", "trend.Apo")},
